@@ -5458,14 +5458,13 @@ class Symbol:
         - or has choice and the choice user selection is None
           (choice._user_selection is None -> choice was not touched by user)
         """
-        return (
-            all(node.prompt is None for node in self.nodes)  # promptless symbols always have default value
-            or (
-                (self._user_value is None or self._has_active_indirect_set)
-                and self.orig_type
-                and ((not self.choice) or self.choice._user_selection is None)
-            )
-        )
+        if all(node.prompt is None for node in self.nodes):  # promptless symbols always have default value
+            return True
+        if self.choice:
+            # The value of a choice symbol only depends on the selection of the choice. A user value of n
+            # on a choice symbol never takes effect, so it does not make the symbol's value user-set.
+            return bool(self.orig_type) and self.choice._user_selection is None
+        return bool((self._user_value is None or self._has_active_indirect_set) and self.orig_type)
 
     def value_is_valid(self, value: Any) -> bool:
         # Check if the value is valid for our type
